@@ -32,7 +32,8 @@ type Obs struct {
 	Stray  int    `json:"stray,omitempty"`  // bytes that had arrived behind the first response before anything else was sent
 	Panic  string `json:"panic,omitempty"`  // a panic in harness-owned goroutines
 	Label  string `json:"label,omitempty"`  // label cases: the proxy_errors_total{reason} that moved
-	Steps  []string `json:"steps,omitempty"` // repeat / counter cases: per-step outcome
+	Steps  []string `json:"steps,omitempty"` // repeat / counter / accept cases: per-step outcome
+	Up     string `json:"up,omitempty"`     // upload cases: what the origin read: complete:<n> | incomplete:<n> | nothing
 	Ms     int64  `json:"ms"`
 }
 
@@ -561,6 +562,10 @@ func (e *env) runOne(c *Case) (o *Obs) {
 		return runCounter(c)
 	case "label":
 		return e.runLabel(c)
+	case "upload":
+		return e.runUpload(c)
+	case "accept":
+		return e.runAccept(c)
 	default:
 		return e.runFault(c)
 	}
